@@ -24,6 +24,7 @@ func c02(r *core.Run) {
 	r.NotDecided = []string{"the proof-window clause: for every placement of one proof per window relative to reward blocks the prover is never dropped (schedule arithmetic; the code is the definition)"}
 	r.Rule("C02/R1", "writer/reader leaf encodings agree: term(builder leaf) ≡ term(verifier leaf) up to leaf naming; same tree hash constructor; same salted flag")
 	r.Rule("C02/R2", "challenge bounded: each Int63n(n) on transaction paths is behind Cmp(n > 0); n ⊵ FileSize and the chunk size; the chunk size at every caller ⊵ Param(storage.ChunkSize) whose validator enforces >= 1")
+	r.Rule("C02/R4", "the file judged in the reward loop is decoded into a fresh variable per file (no captured decode target with repeated fields): otherwise an honest prover of an earlier file is judged against a later file's window and removed/burned")
 	r.Rule("C02/R3", "remove/burn only on the miss branch: in the per-proof routine removal is behind young=false and (proof not found or proven=false); burn behind proven=false and young=false")
 	// ---- R1
 	var bLeaf, vLeaf ssa.Value
@@ -208,5 +209,6 @@ func c02(r *core.Run) {
 			r.Check(len(u1) == 0 && len(u2) == 0, "C02/R3", "rewards:burn-only-on-miss", p.InstrPos(eff.Instr), "burn behind young=false and proven=false", "a provider's burn counter can rise although it proved within the last window or the file is young")
 		}
 		r.Floor("C02/R3", n, 3, "remove/burn sites of the per-proof routine")
+		staleDecodeTargets(r, "C02/R4", p.Summary(e).Funcs)
 	}
 }
